@@ -446,6 +446,11 @@ Definition cfg_of_skeleton (acc post outer : list string) (cap send : string) (w
 Definition skeleton_ok (acc post outer : list string) (cap send : string) : bool :=
   lockset_ok acc && post_ok post && outer_ok outer && errchan_ok cap && send_ok send.
 
+(** merger (pkg/merge/merger.go): errChan has capacity len(otherTs) + [extra]; its senders are
+    one differ per branch plus [senders] further goroutines (mergeTables, the row collector),
+    each sending at most once, and nobody receives before Merger.Error() *)
+Definition merge_errchan_ok (extra senders : N) : bool := (senders <=? extra)%N.
+
 Definition accs_locked : list access :=
   [mk_access FRc KR true; mk_access FRc KW true; mk_access FAb KR true; mk_access FAb KW true].
 Definition accs_unlocked : list access :=
